@@ -188,6 +188,33 @@ def check(R, F, P, cfg):
                    " > ".join(c.split("::")[-1] for c in o["chain"])),
                where=o["where"], cfg=cfg)
     R.floor("R12.2", cfg, 4, n_obs)
+
+    # ---- R12.7 the collector's drop phase is closed ------------------------------------------
+    R.doc("R12.7", "inside the collector's drop phase (an API entry state with collecting & dropping, i.e. a call made by a destructor the collector runs) "
+                   "every callback site is reached with `dropping` still set: nothing reachable from such a destructor (a finalizer run by a nested Cc::drop, "
+                   "a guard, a wrapper) may clear the flag, because Weak::upgrade/strong_count refuse collector-owned objects only while it is set; "
+                   "a nested collection cannot start there (R12.3), so collect's own reset of the flag is not reachable")
+    seen7 = set()
+    n7 = 0
+    for o in obs:
+        c0, f0, d0 = o["entry_state"]
+        if not (c0 and d0):
+            continue
+        key_site = "%s@%s" % (o["kind"], o["site_fn"])
+        ok = bool(o["flags"][2])
+        k = (key_site, ok)
+        if k in seen7:
+            continue
+        seen7.add(k)
+        n7 += 1
+        how = E.get(o["entry_state"])
+        R.inst("R12.7", "drop-phase-closed:%s" % key_site, ok,
+               "%s site in %s reached with (collecting,finalizing,dropping)=%s from entry point %s entered in the drop-phase state %s%s; required: dropping still set; inline chain: %s" % (
+                   o["kind"], o["site_fn"], o["flags"], o["entry"], o["entry_state"],
+                   "" if not how or how[0] == "initial" else " (that state arises at the callback site %s of %s)" % (how[1], how[0]),
+                   " > ".join(c.split("::")[-1] for c in o["chain"])),
+               where=o["where"], cfg=cfg)
+    R.floor("R12.7", cfg, 2, n7)
     R.notes["reachable_entry_states[%s]" % cfg] = sorted("%s via %s" % (e, how[0]) for e, how in E.items())
 
     # ---- R12.3 collect is only called under is_collecting()==false ------------------------
